@@ -570,6 +570,21 @@ class Executor:
             return k(st)
         if isinstance(n, (ast.Import, ast.ImportFrom)):
             return k(st)
+        if isinstance(n, ast.FunctionDef):
+            # a nested helper: bound to a callable that runs its (straight-line) body in place when called, reading the enclosing
+            # function's locals as they are at the call (closure semantics for reads; it must not assign to them)
+            if n.args.vararg or n.args.kwarg or n.args.kwonlyargs or n.args.defaults or n.decorator_list:
+                raise Outside("nested function with defaults / varargs / decorators")
+            params = [a.arg for a in n.args.args]
+
+            def call(ev2, args, kwargs, node2, n=n, params=params):
+                if kwargs or len(args) != len(params):
+                    raise Outside("call form of a nested function")
+                env = dict(ev2.st.env)
+                env.update(dict(zip(params, args)))
+                return self._exec_straightline(n, ev2.st, env)
+            st.env[n.name] = PyCallable(call)
+            return k(st)
         if isinstance(n, ast.With):
             # `with E as x: body` - the context expression is evaluated, bound, the body executed; leaving the block is the
             # context manager's business (closing a file / an archive) and has no effect the contracts track
@@ -2130,9 +2145,22 @@ def Executor_inline_helper(self, o, name, st, args, kwargs, node, ev):
             if not isinstance(defaults[j], ast.Constant):
                 return NotImplemented
             bound[p_] = defaults[j].value
+    try:
+        return self._exec_straightline(fn, st, dict(bound))
+    except Outside:
+        return NotImplemented
+
+
+def Executor_exec_straightline(self, fn, st, env):
+    """run the body of `fn` with `env` as its local environment in the caller's state: local assignments, returns, `if`s decided by the
+    path condition; anything else raises Outside"""
     saved_env = st.env
-    st.env = dict(bound)
+    st.env = env
     self._inlining = getattr(self, "_inlining", 0) + 1
+    if self._inlining > 3:
+        self._inlining -= 1
+        st.env = saved_env
+        raise Outside("helper nesting too deep")
     try:
         def run(stmts):
             for s_ in stmts:
@@ -2160,10 +2188,7 @@ def Executor_inline_helper(self, o, name, st, args, kwargs, node, ev):
                     continue
                 raise Outside(f"helper statement {type(s_).__name__}")
             return None
-        try:
-            r = run(fn.body)
-        except Outside:
-            return NotImplemented
+        r = run(fn.body)
         return r[1] if r is not None else None
     finally:
         self._inlining -= 1
@@ -2189,6 +2214,7 @@ def Executor_is_property(self, name):
 
 
 Executor._is_property = Executor_is_property
+Executor._exec_straightline = Executor_exec_straightline
 Executor._inline_helper = Executor_inline_helper
 Executor.call_builtin = Executor_call_builtin
 Executor.call_method = Executor_call_method
